@@ -56,6 +56,8 @@ pub struct XState {
     /// value the (single) data load of this eBPF instruction returns
     pub load_data: u64,
     pub access: XAccess,
+    /// the access before the last one (the JIT prologue of the fixed-metadata VM makes two stores)
+    pub prev_access: XAccess,
     pub naccess: u8,
 }
 
@@ -164,6 +166,7 @@ fn cond(st: &XState, cc: u8) -> Option<bool> {
 }
 
 fn data_load(st: &mut XState, addr: u64, width: u8) -> u64 {
+    st.prev_access = st.access;
     st.access = XAccess::Load { addr, width };
     if st.naccess < 250 {
         st.naccess += 1;
@@ -172,6 +175,7 @@ fn data_load(st: &mut XState, addr: u64, width: u8) -> u64 {
 }
 
 fn data_store(st: &mut XState, addr: u64, width: u8, val: u64) {
+    st.prev_access = st.access;
     st.access = XAccess::Store { addr, width, val: val & mask(width * 8) };
     if st.naccess < 250 {
         st.naccess += 1;
@@ -263,6 +267,7 @@ pub fn exec_one(st: &mut XState, buf: &[u8; 64], ip: usize) -> (usize, Option<XE
                     data_store(st, addr, width, s);
                 } else if opc == 0x01 && lock {
                     if op16 { return bad; }
+                    st.prev_access = st.access;
                     st.access = XAccess::LockAdd { addr, width, val: s & mask(bits) };
                     if st.naccess < 250 { st.naccess += 1; }
                     st.flags_valid = false;
